@@ -95,9 +95,7 @@ func Worker(opt Options, w, W int, deadlineUnix int64, hashFile string, out io.W
 			break
 		}
 		fmt.Fprintf(bw, "R %d\n", idx)
-		if idx%64 == w%64 {
-			bw.Flush()
-		}
+		bw.Flush() // the orchestrator must know which run a dying worker was in
 		r := NewRand(RunSeed(opt.Seed, e.Name(), opt.Prop, idx))
 		tr := e.Generate(r, opt.Prop, opt.Tier)
 		ctx := NewCtx(opt.Prop, tol, nil)
@@ -325,7 +323,13 @@ func Run(opt Options) int {
 		violations = 1
 		o := opt
 		o.Seed = b.vioSeed
-		p, code := shrinkAndReplay(o, firstVioIdx)
+		var p string
+		var code int
+		if pre, ok := preparedReplays[firstVio.Signature]; ok {
+			p, code = pre, confirmReplay(pre)
+		} else {
+			p, code = shrinkAndReplay(o, firstVioIdx)
+		}
 		replayPath = p
 		if code == 2 {
 			trouble = "violation did not replay deterministically (harness trouble): " + firstVio.Signature
@@ -468,6 +472,7 @@ func runWorker(opt Options, w int, deadline int64, hashFile string) *workerResul
 		}
 	}
 	res.exitErr = cmd.Wait()
+	os.Remove(hangFile(cmd.Process.Pid)) // a hung worker's dump: the run is re-executed alone anyway
 	close(done)
 	res.stderr = stderr.String()
 	if res.exitErr != nil {
@@ -493,6 +498,13 @@ func (l *limitedWriter) Write(p []byte) (int, error) {
 	return len(p), nil
 }
 
+// hangMarker identifies the goroutine that runs the tool in a stack dump.
+const hangMarker = "(*session).run"
+
+// preparedReplays: violations whose replay file already exists (hangs cannot
+// be minimised: every candidate would cost a watchdog period).
+var preparedReplays = map[string]string{}
+
 // rerunCrashed re-executes one run index alone in a fresh child. If it dies
 // again and the runtime's report names an mltwist (non-harness) frame, this is
 // a crash of the code under test that recover() cannot catch.
@@ -515,6 +527,27 @@ func rerunCrashed(opt Options, e Engine, idx int) (*Violation, string) {
 	case err := <-done:
 		if err == nil {
 			return nil, "re-execution alone succeeded (not reproducible)"
+		}
+		if ee, ok := err.(*exec.ExitError); ok && ee.ExitCode() == 97 {
+			// The engine's watchdog fired again: a reproducible hang.
+			d := takeHangDump(cmd.Process.Pid)
+			if d == nil || len(d.Trace) == 0 {
+				return nil, "hung again (watchdog) but left no dump"
+			}
+			fn, harness := HangOwner(d.Stack, hangMarker)
+			if harness {
+				return nil, "hung again (watchdog) with the harness as innermost frame: " + fn
+			}
+			v := &Violation{Property: opt.Prop, Oracle: "no-hang", Signature: "hang/" + fn, Event: -1,
+				Detail: "the tool did not return to the simulator (" + d.Reason + "); innermost frame " + fn}
+			rp := &Replay{Property: opt.Prop, Engine: e.Name(), VerifSeed: opt.Seed, RunIndex: idx, Tier: opt.Tier,
+				Signature: v.Signature, Oracle: v.Oracle, Event: -1, Detail: v.Detail, LogHash: "", Minimised: false, Trace: d.Trace}
+			p, werr := WriteReplay(rp)
+			if werr != nil {
+				return nil, werr.Error()
+			}
+			preparedReplays[v.Signature] = p
+			return v, ""
 		}
 	case <-time.After(120 * time.Second):
 		_ = cmd.Process.Kill()
@@ -571,6 +604,11 @@ func shrinkAndReplay(opt Options, idx int) (string, int) {
 		fmt.Fprintf(os.Stderr, "HARNESS: shrink child failed: %v\n%s\n", err, out)
 		return "", 2
 	}
+	return path, confirmReplay(path)
+}
+
+// confirmReplay replays a file in a fresh process: exit 1 = reproduced.
+func confirmReplay(path string) int {
 	// Fresh-process replay must reproduce signature and log hash.
 	rc := exec.Command(selfExe(), "replay", "-quiet", path)
 	rc.Stderr = os.Stderr
@@ -583,9 +621,9 @@ func shrinkAndReplay(opt Options, idx int) (string, int) {
 	}
 	if code != 1 {
 		fmt.Fprintf(os.Stderr, "HARNESS: fresh-process replay of %s exited %d: %s\n", path, code, rout)
-		return path, 2
+		return 2
 	}
-	return path, 1
+	return 1
 }
 
 // Shrink regenerates run idx, minimises it and writes the replay file.
@@ -676,6 +714,9 @@ func ReplayFile(path string, quiet bool, withKnown bool) int {
 	var log io.Writer
 	if !quiet {
 		log = os.Stdout
+	}
+	if strings.HasPrefix(rp.Signature, "hang/") {
+		ReplayExpect = &struct{ Prop, Sig, Path string }{rp.Property, rp.Signature, path}
 	}
 	ctx := NewCtx(rp.Property, tol, log)
 	e.Execute(tr, ctx)
